@@ -169,11 +169,14 @@ fn inject_read_faults(k: usize, rd: &mut HandshakeState, v: &V, payload_encrypte
     let (payload, expect) = &v.msgs[k];
     let mut p = vec![0u8; 70000];
     let upto = if payload_encrypted { expect.len() } else { 32.min(expect.len()) };
-    for cut in 0..upto { let _ = rd.read_message(&expect[..cut], &mut p); }
+    // C03: with an encrypted payload every byte of the message is authenticated (h is the associated data), so the receiving read
+    // itself must reject every truncation, bit flip and extension
+    let mut accepted = |what: String, r: Result<usize, Error>| { if r.is_ok() && payload_encrypted { finding("C03", format!("{}: handshake message {} {} is accepted by the receiver", v.name, k, what)); } };
+    for cut in 0..upto { let r = rd.read_message(&expect[..cut], &mut p); accepted(format!("truncated from {} to {} bytes", expect.len(), cut), r); }
     if payload_encrypted {
         let step = (expect.len() / 40).max(1);
-        for pos in (0..expect.len()).step_by(step) { let mut m = expect.clone(); m[pos] ^= 0x40; let _ = rd.read_message(&m, &mut p); }
-        let mut ext = expect.clone(); ext.push(0); let _ = rd.read_message(&ext, &mut p);
+        for pos in (0..expect.len()).step_by(step) { let mut m = expect.clone(); m[pos] ^= 0x40; let r = rd.read_message(&m, &mut p); accepted(format!("with bit 6 of byte {} flipped", pos), r); }
+        let mut ext = expect.clone(); ext.push(0); let r = rd.read_message(&ext, &mut p); accepted("extended by one zero byte".to_string(), r);
     }
     if !payload.is_empty() { let mut tiny = vec![0u8; payload.len() - 1]; let _ = rd.read_message(expect, &mut tiny); }
     let _ = rd.read_message(&vec![0u8; 65536], &mut p);
